@@ -31,7 +31,8 @@ CRedef == IF Done /\ Redef
 ScnC == [f \in DOMAIN scn \cup {"itoks", "phase0", "carry", "twinOf"} |->
            IF f = "itoks" THEN [j \in DOMAIN scn.inputs |-> j]
            ELSE IF f = "phase0" THEN 1 ELSE IF f = "carry" THEN FALSE ELSE IF f = "twinOf" THEN 0 ELSE scn[f]]
-CI == INSTANCE Contract WITH scn <- ScnC, gens <- <<>>, log <- log, rets <- CRets, redef <- CRedef, kinds <- {}
+CGens == LET gl == GenList(scn) IN [k \in DOMAIN gl |-> [ev |-> "gen", fn |-> Len(scn.convs) + k, fin |-> gl[k].in, fout |-> gl[k].out]]
+CI == INSTANCE Contract WITH scn <- ScnC, gens <- CGens, log <- log, rets <- CRets, redef <- CRedef, kinds <- {}
 
 M_C01 == CI!C01
 M_C02 == CI!C02
